@@ -55,7 +55,7 @@ Theorem admit_np_strict_refuted :
 Proof.
   set (cfg := mkConfig false false).
   set (st := exec cfg init_state (firstn 3 np_witness_ops)).
-  exists cfg, st, (mkPod 1 1 (mkVec 2 50 0) (mkMask true true false) true false).
+  exists cfg, st, (mkPod 1 1 (mkVec 2 50 0) (mkMask true true false) true false false).
   destruct (path st 1) as [|q anc] eqn:Ep; [vm_compute in Ep; discriminate|].
   exists q, anc. vm_compute in Ep. injection Ep as <- <-.
   split; [vm_compute; reflexivity|]. split; [reflexivity|]. split; [vm_compute; reflexivity|].
@@ -101,7 +101,7 @@ Lemma MC_step cfg st o : MC (quotas st) -> mc_opb st o = true -> MC (quotas (fst
 Proof.
   intros M Hb.
   destruct o as [id parent lend decl mx mindecl mn w|id mx mindecl mn w|id qn np req keys|id|id|id|id|id|t
-                 |id qn np req keys|id|]; unfold step, apply_attempt; cbv zeta.
+                 |id qn np req keys|id|id|]; unfold step, apply_attempt; cbv zeta.
   - destruct (id <=? 0); cbn [orb fst]; [exact M|].
     destruct (find_quota id (quotas st)); cbn [orb fst]; [exact M|].
     match goal with |- context [negb ?b] => destruct b end; cbn [negb fst quotas]; [|exact M].
@@ -132,6 +132,11 @@ Proof.
     unfold charge. cbn [quotas]. apply MC_upd_used. apply MC_touch. apply MC_taint. exact M.
   - destruct (find_quota id (quotas st)) as [q00|]; cbn [fst quotas]; [|exact M].
     apply MC_refresh. apply MC_map; [|exact M]. intros q _ Hq. destruct (q_id q =? id); exact Hq.
+  - destruct (find_pod id (pods st)) as [p|]; cbn [fst]; [|exact M].
+    destruct (p_assigned p); [cbn [fst quotas]; apply MC_touch; apply MC_upd_used; exact M|].
+    destruct (p_bound p); cbn [fst].
+    + unfold charge. cbn [quotas]. apply MC_upd_used. apply MC_touch. apply MC_taint. exact M.
+    + cbn [quotas]. apply MC_touch. exact M.
   - exact M.
 Qed.
 
